@@ -241,8 +241,9 @@ fn from_linear_rgb(data: &mut [RGBA8]) {
 #[inline]
 fn f32_bound(min: f32, val: f32, max: f32) -> f32 {
     debug_assert!(min.is_finite());
-    debug_assert!(val.is_finite());
     debug_assert!(max.is_finite());
+    // `val` can be infinite or NaN when huge (but finite) filter parameters overflow f32.
+    // An infinity is clamped like any other value; NaN falls through and becomes 0 in `as u8`.
 
     if val > max {
         max
